@@ -16,12 +16,29 @@
     (re-opening appends to the same scope);
   * `C12_top_level_carries_only_doc` + `C12_keep_doxygen`: the top-level loop is `loopN` over
     `mainBody`, whose only loop-carried value is `carry tok doxygen`: `none` unless the item was
-    one of the four attribute-like tokens.
+    one of the four attribute-like tokens;
+  * `C12_namespace_header`: a whole declaration form — for a header `n1 :: … :: nk {` of any
+    length, `_parse_namespace` is exactly "read the header, then `nsFinish` with the written
+    names": one block is pushed carrying `[n1, …, nk]` and nothing else of the parser state
+    changes (`Theorems/NsForm.lean`); with `C12_open_split` the pushed block opens the same
+    chain of scopes as the nested spelling;
+  * `C12_extern_block_header`: outside a class, `extern "<linkage>" {` is exactly "open one
+    extern block carrying the written linkage" (`Theorems/ExternForm.lean`); with
+    `C12_extern_transparent` the block's items land in the enclosing scope;
+  * `C12_toplevel_namespace` (`Theorems/TopLevel.lean`): the same at the level of `parse()`'s own
+    loop, on the regenerated lexer rules, dispatch table and keep set — an iteration that starts
+    (after any comments and blank lines) at `namespace n1 :: … :: nk {` finds the doc text with
+    `get_doxygen`, opens one block with exactly the written names and that doc text, changes
+    nothing else of the parser state and hands NO doc text to the next iteration.
 -/
 import CxxModel.SimpleFold
 import CxxModel.Parser.Decl
 import CxxModel.Tables
 import CxxModel.Props.C01
+import CxxModel.Theorems.NsForm
+import CxxModel.Theorems.ExternForm
+import CxxModel.Theorems.TopLevel
+import CxxModel.GenCfg
 namespace Cxx
 
 theorem C12_fold_append (a b : List Event) (i : Nat) (fs fs' : FoldState)
@@ -121,5 +138,63 @@ theorem C12_top_level_carries_only_doc (F : Nat) (c : P.Core) :
   · intro tok; simp [P.carry]
 
 theorem C12_keep_doxygen : Gen.keepDoxygen = ["DBL_LBRACKET", "__attribute__", "__declspec", "alignas"] := keep_doxygen_eq
+
+
+theorem C12_namespace_header (env : Env) (F : Nat) (tok : CTok) (doxygen : Option String) (inline : Bool)
+    (first : Tok) (pairs : List (Tok × Tok)) (ob : Tok) (w : World) (b' : Buf)
+    (hf : first.type = "NAME") (hall : ∀ p ∈ pairs, p.1.type = "DBL_COLON" ∧ p.2.type = "NAME") (hob : ob.type = "{")
+    (hy : Yields env.cfg w.buf (first :: (pairs.flatMap (fun p => [p.1, p.2]) ++ [ob])) b') (hF : pairs.length + 1 ≤ F) :
+    ∃ w', w'.buf = b' ∧ SameParse w w' ∧
+      interp env (P.parseNamespace F tok doxygen inline) w =
+        interp env (P.nsFinish (.tok tok.sidx) doxygen inline (first.value :: pairs.map (·.2.value)) none) w' :=
+  namespace_form env F tok doxygen inline first pairs ob w b' hf hall hob hy hF
+
+theorem C12_extern_block_header (env : Env) (F : Nat) (c : P.Core) (tok : CTok) (doxygen : Option String) (str ob : Tok)
+    (w : World) (b' : Buf) (blk : Block) (rest : List Block) (hstack : w.stack = blk :: rest) (hk : blk.view.kind ≠ .cls)
+    (hs : str.type = "STRING_LITERAL") (hob : ob.type = "{") (hy : Yields env.cfg w.buf [str, ob] b') :
+    ∃ (w' : World) (e : CTok), w'.buf = b' ∧ SameParse w w' ∧ e.value = str.value ∧
+      interp env (P.parseExtern F c tok doxygen) w =
+        interp env (Prog.push { kind := .ext, loc := .tok tok.sidx, linkage := e.value } (Prog.pure ())) w' :=
+  extern_block_form env F c tok doxygen str ob w b' blk rest hstack hk hs hob hy
+
+theorem C12_toplevel_namespace (env : Env) (hc : env.cfg = genLexCfg) (F : Nat) (c : P.Core) (w : World)
+    (kw first : Tok) (pairs : List (Tok × Tok)) (ob : Tok) (b' : Buf)
+    (hkw : kw.type = "namespace") (hf : first.type = "NAME")
+    (hall : ∀ p ∈ pairs, p.1.type = "DBL_COLON" ∧ p.2.type = "NAME") (hob : ob.type = "{")
+    (hy : Yields env.cfg w.buf (kw :: first :: (pairs.flatMap (fun p => [p.1, p.2]) ++ [ob])) b')
+    (hF : pairs.length + 1 ≤ F) :
+    ∃ (d : Option String) (bD : Buf) (w' : World) (ct : CTok),
+      getDoxygen env.cfg env.mcRe w.buf = .ok (d, bD) ∧ w'.buf = b' ∧
+      w'.stack = w.stack ∧ w'.events = w.events ∧ w'.delivered = w.delivered ∧ w'.anon = w.anon ∧ w'.muted = w.muted ∧
+      w'.mainTok = some ct ∧ ct.value = kw.value ∧
+      interp env (P.mainBody F c none) w =
+        match interp env (P.nsFinish (.tok ct.sidx) d false (first.value :: pairs.map (·.2.value)) none) w' with
+        | (w3, .ok ()) => (w3, .ok (.inl none))
+        | (w3, .error e) => (w3, .error e) :=
+  toplevel_namespace env (by rw [hc]; exact gen_rules_progress) F c w kw first pairs ob b' hkw hf hall hob hy hF
+
+/-! non-vacuity: a stream holding `namespace a :: b {` with a comment and blanks between the tokens
+    meets the hypotheses of `C12_toplevel_namespace` -/
+private def tk (ty v : String) : Tok := { type := ty, value := v, loc := default, sidx := 0 }
+
+private theorem tokenEofOk_pop (cfg : LexCfg) (b : Buf) (t : Tok) (rest : List Tok)
+    (h : popSignificant isDiscard b.tokbuf = some (t, rest)) :
+    tokenEofOk cfg b = .ok (some t, { b with tokbuf := rest }) := by
+  simp only [tokenEofOk, fuelFor, nextTok, h]
+
+example (cfg : LexCfg) :
+    Yields cfg { tokbuf := [tk "namespace" "namespace", tk "WHITESPACE" " ", tk "NAME" "a", tk "DBL_COLON" "::",
+                            tk "COMMENT_MULTILINE" "/* c */", tk "NAME" "b", tk "NEWLINE" "\n", tk "{" "{"],
+                 lex := { rest := [] }, bounded := true }
+      (tk "namespace" "namespace" :: tk "NAME" "a" ::
+        (([(tk "DBL_COLON" "::", tk "NAME" "b")] : List (Tok × Tok)).flatMap (fun p => [p.1, p.2]) ++ [tk "{" "{"]))
+      { tokbuf := [], lex := { rest := [] }, bounded := true } :=
+  .cons (tokenEofOk_pop cfg _ _ [tk "WHITESPACE" " ", tk "NAME" "a", tk "DBL_COLON" "::", tk "COMMENT_MULTILINE" "/* c */",
+      tk "NAME" "b", tk "NEWLINE" "\n", tk "{" "{"] (by decide))
+    (.cons (tokenEofOk_pop cfg _ _ [tk "DBL_COLON" "::", tk "COMMENT_MULTILINE" "/* c */", tk "NAME" "b", tk "NEWLINE" "\n",
+        tk "{" "{"] (by decide))
+      (.cons (tokenEofOk_pop cfg _ _ [tk "COMMENT_MULTILINE" "/* c */", tk "NAME" "b", tk "NEWLINE" "\n", tk "{" "{"] (by decide))
+        (.cons (tokenEofOk_pop cfg _ _ [tk "NEWLINE" "\n", tk "{" "{"] (by decide))
+          (.cons (tokenEofOk_pop cfg _ _ [] (by decide)) (.nil _)))))
 
 end Cxx
